@@ -394,3 +394,31 @@ def honestRun (c : ClientCfg) (s : ServerCfg) (credOK : String → Bool) (user s
         | .error e1, .error e2 => ⟨.error e1, .error e2, false⟩
 
 end Cedar.HS
+
+namespace Cedar.HS
+
+/-! ### per-command policies (`Authenticator.ServerConfigForCommand`)
+
+  models: the policy swap at the head of security.ServerHandshakeWithMessage. The request names the
+  command the negotiation is FOR in `Command` (absent: the zero value); `AuthCommand` is an optional
+  second attribute that is parsed and plays NO part in the choice of policy. -/
+
+structure CmdReq where
+  command : Option Int        -- `Command` attribute of the request (none: not sent)
+  authCommand : Option Int    -- `AuthCommand` attribute (none: not sent)
+  deriving Repr, DecidableEq, Inhabited
+
+/-- the command the server reports as negotiated (`SecurityNegotiation.ClientConfig.Command`) and a
+    dispatching server runs -/
+def CmdReq.negotiatedFor (r : CmdReq) : Int := r.command.getD 0
+
+/-- the policy in force: the table's entry for the command, else the connection's default config -/
+def policyFor (dflt : ServerCfg) (table : Int → Option ServerCfg) (cmd : Int) : ServerCfg :=
+  (table cmd).getD dflt
+
+/-- `ServerHandshakeWithMessage` of a server that carries per-command policies -/
+def serverPerCommand (dflt : ServerCfg) (table : Int → Option ServerCfg) (req : CmdReq)
+    (cli : ClientScript) (sid : String) : SrvResult :=
+  serverFull (policyFor dflt table req.negotiatedFor) cli sid
+
+end Cedar.HS
